@@ -72,6 +72,20 @@ def gen(rng, knobs):
     rng.shuffle(h.ops)
     h.ops.append(["sub", [f]])
     evs = h.events
+    # the same conditions several times in one REQ with different limits (each filter keeps its own)
+    for _ in range(rng.choice([0, 1, 1, 2])):
+        g = dict(f)
+        lims = [rng.choice([0, 1, 2, n, ml, None]), rng.choice([1, n + 1, ml, ml + 1, 10 ** 9, None])]
+        if rng.random() < 0.3:
+            lims.reverse()
+        fs = []
+        for lm in lims:
+            g2 = dict(g)
+            g2.pop("limit", None)
+            if lm is not None:
+                g2["limit"] = lm
+            fs.append(g2)
+        h.ops.append(["sub", fs])
     for _ in range(rng.randint(2, 8)):
         k = rng.choice([1, 1, 1, 2, 3, 5])
         fs = []
@@ -144,6 +158,22 @@ def run(case, sim):
             viol.append({"cls": "too-many", "sig": "too-many|%s|%s|%s" % (backend, plan, shape),
                          "detail": {"filters": filters, "returned": len(got), "allowed": total,
                                     "max_limit": ml}})
+        if len(filters) > 1:
+            # a filter whose matches all fit under its own limit must not be truncated by its neighbours
+            gotset = set(got)
+            for f, eff in zip(filters, caps):
+                Mi = [e for e in st.values() if model.matches(e, f, "inclusive")]
+                Ms = [e for e in st.values() if model.matches(e, f, "strict")]
+                if len(Mi) <= eff:
+                    omitted = [e for e in Ms if e["id"] not in gotset]
+                    if omitted:
+                        same = sum(1 for g in filters if {k: v for k, v in g.items() if k != "limit"} ==
+                                   {k: v for k, v in f.items() if k != "limit"})
+                        viol.append({"cls": "truncated-under-limit",
+                                     "sig": "truncated-under-limit|%s|multi|%s" % (backend, "same-conditions" if same > 1 else "other"),
+                                     "detail": {"filters": filters, "filter": f, "matches": len(Mi), "limit": eff,
+                                                "returned": len(got), "omitted": len(omitted)}})
+                        break
         if len(filters) == 1:
             f = filters[0]
             eff = caps[0]
